@@ -6,6 +6,7 @@ sys.path.insert(0, '/verif/selftest')
 from refactors import REFACTORS
 only = [a for a in sys.argv[1:] if not a.startswith('--')]
 bad = 0
+from refactors import EXTRA
 for name, f, old, new in REFACTORS:
     if only and name not in only:
         continue
@@ -14,7 +15,11 @@ for name, f, old, new in REFACTORS:
     if src.count(old) != 1:
         print("%-32s PATTERN occurs %d times" % (name, src.count(old))); bad += 1; continue
     try:
-        open(path, 'w').write(src.replace(old, new))
+        new_src = src.replace(old, new)
+        for (o2, n2) in EXTRA.get(name, []):
+            assert new_src.count(o2) == 1, (name, o2[:40])
+            new_src = new_src.replace(o2, n2)
+        open(path, 'w').write(new_src)
         r = subprocess.run(['./check', '--all'], cwd='/verif', text=True, stdout=subprocess.PIPE, stderr=subprocess.STDOUT)
         viol = [l for l in r.stdout.splitlines() if l.startswith('VIOLATION') or l.startswith('    rule') or l.startswith('INFRA')]
         if '--tests' in sys.argv and not viol:
